@@ -53,13 +53,13 @@ Mul(a, b) ==
        ELSE IF ~same /\ ma = (INT_MAX \div mb) + 1 /\ INT_MAX % mb = mb - 1 THEN Ok(INT_MIN)
        ELSE UB
 
-\* 2^31 \div b for b > 0, without writing 2^31
+\* 2^31 \div b for b > 1, without writing 2^31
 P31Div(b) == (INT_MAX \div b) + B2I(INT_MAX % b = b - 1)
 
 \* quotient truncated toward zero; b # 0 and not (a = INT_MIN /\ b = -1)
 Quot(a, b) ==
   IF b = INT_MIN THEN B2I(a = INT_MIN)
-  ELSE IF a = INT_MIN THEN (IF b > 0 THEN -P31Div(b) ELSE P31Div(-b))
+  ELSE IF a = INT_MIN THEN (IF b = 1 THEN a ELSE IF b > 0 THEN -P31Div(b) ELSE P31Div(-b))
   ELSE LET q == Abs(a) \div Abs(b) IN IF (a < 0) = (b < 0) THEN q ELSE -q
 
 Div(a, b) == IF b = 0 THEN Div0 ELSE IF a = INT_MIN /\ b = -1 THEN UB ELSE Ok(Quot(a, b))
@@ -124,11 +124,13 @@ Un(op, a) ==
     [] op = "~" -> Ok(Not(a))
     [] op = "!" -> Ok(B2I(a = 0))
 
-\* (char) is a signed 8-bit type on the platform the oracle compiler targets: wrap to -128..127
+\* (char) is a signed 8-bit type on the platform the oracle compiler targets: wrap to -128..127;
+\* (short) is 16 bit: wrap to -32768..32767 (modular conversion: C++20, and every two's complement compiler)
 Cast(ty, a) ==
   CASE ty = "int"  -> Ok(a)
     [] ty = "bool" -> Ok(B2I(a # 0))
     [] ty = "char" -> Ok((((Low(a) % 256) + 128) % 256) - 128)     \* 2^31 is a multiple of 256
+    [] ty = "short" -> Ok((((Low(a) % 65536) + 32768) % 65536) - 32768)
 
 \* combination of already evaluated operands: the first that is not "ok" in C++
 \* evaluation order decides, "ub" winning over "div0" (the expression is outside the domain)
